@@ -16,8 +16,8 @@ import (
 // SinkInfo: where user sinks are invoked and which functions may invoke one synchronously.
 type SinkInfo struct {
 	t       *Taint
-	calls   []ssa.CallInstruction       // dynamic calls of a sink value
-	invokes map[*ssa.Function]bool      // functions that may synchronously run a sink
+	calls   []ssa.CallInstruction             // dynamic calls of a sink value
+	invokes map[*ssa.Function]bool            // functions that may synchronously run a sink
 	via     map[*ssa.Function]ssa.Instruction // an instruction in the function through which it does
 }
 
@@ -481,3 +481,154 @@ func hasRecover(fn *ssa.Function) bool {
 }
 
 var _ = callgraph.Edge{}
+
+// ---------------------------------------------------------------- captured variables rewritten by a loop
+
+// closureRetained: may the closure value v outlive the statement that created it (stored, returned,
+// started as a goroutine, deferred, or handed to a function that keeps it)?
+func (a *A) closureRetained(v ssa.Value, depth int) (bool, string) {
+	if depth > 3 {
+		return true, "call depth exceeded"
+	}
+	for x := range flowsForward(v) {
+		refs := x.Referrers()
+		if refs == nil {
+			continue
+		}
+		for _, r := range *refs {
+			switch u := r.(type) {
+			case *ssa.Return:
+				return true, "returned from " + fname(u.Parent())
+			case *ssa.Store:
+				if u.Val == x {
+					if _, local := u.Addr.(*ssa.Alloc); !local {
+						return true, "stored to " + TermOf(u.Addr, nil).String()
+					}
+				}
+			case *ssa.MapUpdate:
+				if u.Value == x {
+					return true, "stored in a map"
+				}
+			case *ssa.Send:
+				if u.X == x {
+					return true, "sent on a channel"
+				}
+			case *ssa.MakeClosure:
+				if ok, why := a.closureRetained(u, depth+1); ok {
+					return true, "captured by a closure that is " + why
+				}
+			case *ssa.Go:
+				return true, "started as a goroutine"
+			case *ssa.Defer:
+				return true, "deferred to function exit"
+			case *ssa.Call:
+				if u.Call.Value == x {
+					continue // invoked on the spot
+				}
+				callee := u.Call.StaticCallee()
+				if callee == nil {
+					return true, "passed to a dynamic call"
+				}
+				if !a.fnInModule(callee) {
+					if callee.Pkg != nil && syncHigherOrderPkgs[callee.Pkg.Pkg.Path()] {
+						continue
+					}
+					return true, "passed to " + fname(callee)
+				}
+				for i, arg := range u.Call.Args {
+					if arg == x && i < len(callee.Params) && callee.Blocks != nil {
+						if ok, why := a.closureRetained(callee.Params[i], depth+1); ok {
+							return true, "passed to " + fname(callee) + ", where it is " + why
+						}
+					}
+				}
+			}
+		}
+	}
+	return false, ""
+}
+
+// ruleCapturedLoopVariable: a closure that outlives the iteration which created it must not capture
+// a variable that a later iteration overwrites (the module's go directive is below 1.22, so the
+// variable of a for/range statement is one variable for the whole loop): every closure would then see
+// the value of the last iteration. Decided on the SSA form, where such a variable is an Alloc outside
+// the cycle through the closure's creation that is stored to on that cycle.
+func (a *A) ruleCapturedLoopVariable(pkgs map[*ssa.Package]bool) int {
+	n := 0
+	for _, fn := range a.ModFuncs {
+		if fn.Pkg == nil || pkgs != nil && !pkgs[fn.Pkg] {
+			continue
+		}
+		allInstrs(fn, func(in ssa.Instruction) {
+			mc, ok := in.(*ssa.MakeClosure)
+			if !ok {
+				return
+			}
+			mb := mc.Block()
+			// is the creation site on a cycle at all?
+			onCycle := false
+			for _, s := range mb.Succs {
+				if reachesAvoiding(s, mb, nil) {
+					onCycle = true
+				}
+			}
+			if !onCycle {
+				return
+			}
+			n++
+			construct := fname(mc.Fn.(*ssa.Function)) + "#captures"
+			for _, bnd := range mc.Bindings {
+				al, ok := bnd.(*ssa.Alloc)
+				if !ok {
+					continue
+				}
+				ab := al.Block()
+				if ab == mb {
+					continue // allocated in the iteration that creates the closure
+				}
+				recreated := false
+				for _, s := range mb.Succs {
+					if reachesAvoiding(s, mb, ab) {
+						recreated = true
+					}
+				}
+				if !recreated {
+					continue
+				}
+				// stored to on a cycle through the creation site that avoids the allocation
+				var rewrite *ssa.Store
+				for _, r := range *al.Referrers() {
+					st, ok := r.(*ssa.Store)
+					if !ok || st.Addr != ssa.Value(al) || st.Block() == ab {
+						continue
+					}
+					sb := st.Block()
+					if sb == mb || (reachesAvoidingFrom(mb, sb, ab) && reachesAvoidingFrom(sb, mb, ab)) {
+						rewrite = st
+						break
+					}
+				}
+				if rewrite == nil {
+					continue
+				}
+				if kept, why := a.closureRetained(mc, 0); kept {
+					a.Bad(construct, mc.Pos(), "the closure captures %s, which the loop overwrites at %s on every iteration, and is %s: after the loop every such closure sees the last iteration's value", al.Comment, a.pos(rewrite.Pos()), why)
+					return
+				}
+			}
+			a.Ok(construct, mc.Pos(), "no captured variable is overwritten by a later iteration while the closure is retained")
+		})
+	}
+	return n
+}
+
+// reachesAvoidingFrom: can block 'to' be reached from a successor of 'from' without entering 'avoid'?
+func reachesAvoidingFrom(from, to, avoid *ssa.BasicBlock) bool {
+	for _, s := range from.Succs {
+		if reachesAvoiding(s, to, avoid) {
+			return true
+		}
+	}
+	return false
+}
+
